@@ -266,6 +266,16 @@ def main(cli_argv=None, return_args=False):
             _parser.error(
                 "--truth must be an existent file. Got: {!r}".format(truth_file)
             )
+        for kind in "argparse_function", "class", "function":
+            if (
+                getattr(args, pluralise(kind)) is not None
+                and getattr(args, "{}_names".format(kind)) is None
+            ):
+                _parser.error(
+                    "--{kind}-name is required when --{kind} is given".format(
+                        kind=kind.replace("_", "-")
+                    )
+                )
 
         return args if return_args else ground_truth(args, truth_file)
     elif command == "sync_properties":
